@@ -64,14 +64,32 @@ func (f *fixture) probePath(r opfix.Router, i int) string {
 	return rel(e.Path)
 }
 
-// codeFlow runs authorize -> login -> callback -> token for client and returns the token response (nil if the flow broke before).
-func (f *fixture) codeFlow(r opfix.Router, q request, client, secret, redirect string, extraAuth, extraToken url.Values) *opfix.Resp {
+// signedJWT: an RS256 JWT signed with the key registered (kid r1) for the fixture's clients.
+func signedJWT(claims map[string]any) string {
+	signer, err := jose.NewSigner(jose.SigningKey{Algorithm: jose.RS256, Key: opfix.RSAKey()},
+		(&jose.SignerOptions{}).WithType("JWT").WithHeader("kid", "r1"))
+	if err != nil {
+		panic(err)
+	}
+	payload, _ := json.Marshal(claims)
+	jws, err := signer.Sign(payload)
+	if err != nil {
+		panic(err)
+	}
+	s, _ := jws.CompactSerialize()
+	return s
+}
+
+// codeFlow runs authorize -> login -> callback -> token for a client of kind k, authenticating it the
+// way it is registered (issuer = the audience of a private_key_jwt assertion), and returns the token
+// response (nil if the flow broke before the token request).
+func (f *fixture) codeFlow(r opfix.Router, q request, k clientKind, issuer string, extraAuth, extraToken url.Values) *opfix.Resp {
 	if f.eps[r][iAuth].Kind == epNil || f.eps[r][iToken].Kind == epNil {
 		return nil
 	}
-	aq := url.Values{"client_id": {client}, "redirect_uri": {redirect}, "response_type": {"code"}, "scope": {"openid"}, "state": {"st"}, "nonce": {"n1"}}
-	for k, v := range extraAuth {
-		aq[k] = v
+	aq := url.Values{"client_id": {k.id}, "redirect_uri": {k.redirect}, "response_type": {"code"}, "scope": {"openid"}, "state": {"st"}, "nonce": {"n1"}}
+	for key, v := range extraAuth {
+		aq[key] = v
 	}
 	ar := f.do(r, q, http.MethodGet, f.probePath(r, iAuth), aq, nil)
 	if ar.Status != http.StatusFound || ar.Location == nil {
@@ -86,22 +104,31 @@ func (f *fixture) codeFlow(r opfix.Router, q request, client, secret, redirect s
 	if code == "" {
 		return nil
 	}
-	tf := url.Values{"grant_type": {"authorization_code"}, "code": {code}, "redirect_uri": {redirect}}
-	for k, v := range extraToken {
-		tf[k] = v
+	tf := url.Values{"grant_type": {"authorization_code"}, "code": {code}, "redirect_uri": {k.redirect}}
+	for key, v := range extraToken {
+		tf[key] = v
 	}
 	var basic []string
-	if secret != "" {
-		basic = []string{client, secret}
-	} else {
-		tf.Set("client_id", client)
+	switch k.auth {
+	case "basic":
+		basic = []string{k.id, k.secret}
+	case "post":
+		tf.Set("client_id", k.id)
+		tf.Set("client_secret", k.secret)
+	case "private_key_jwt":
+		now := time.Now()
+		tf.Set("client_assertion_type", "urn:ietf:params:oauth:client-assertion-type:jwt-bearer")
+		tf.Set("client_assertion", signedJWT(map[string]any{"iss": k.id, "sub": k.id, "aud": []string{issuer},
+			"iat": now.Unix(), "exp": now.Add(10 * time.Minute).Unix()}))
+	default:
+		tf.Set("client_id", k.id)
 	}
 	return f.do(r, q, http.MethodPost, f.probePath(r, iToken), tf, basic)
 }
 
 // tokenIssuer: the iss claim of an ID token issued through the code flow.
 func (f *fixture) tokenIssuer(r opfix.Router, q request) (*string, bool) {
-	tr := f.codeFlow(r, q, "web", "web-secret", "https://web.example.com/cb", nil, nil)
+	tr := f.codeFlow(r, q, clientKinds[0], "", nil, nil)
 	if tr == nil {
 		return nil, false
 	}
@@ -130,27 +157,16 @@ func (f *fixture) grantProbe(r opfix.Router, q request, grant string) *opfix.Res
 	return f.do(r, q, http.MethodPost, f.probePath(r, iToken), form, []string{"web", "web-secret"})
 }
 
-// requestObject builds an RS256 request object signed with the key registered for client "web".
-func requestObject(audience string) string {
-	signer, err := jose.NewSigner(jose.SigningKey{Algorithm: jose.RS256, Key: opfix.RSAKey()},
-		(&jose.SignerOptions{}).WithType("JWT").WithHeader("kid", "r1"))
-	if err != nil {
-		panic(err)
-	}
-	payload, _ := json.Marshal(map[string]any{"iss": "web", "aud": []string{audience}, "client_id": "web", "response_type": "code",
+// requestObject builds an RS256 request object signed with the key registered for the client.
+func requestObject(client, audience string) string {
+	return signedJWT(map[string]any{"iss": client, "aud": []string{audience}, "client_id": client, "response_type": "code",
 		"state": "from-object", "iat": time.Now().Unix(), "exp": time.Now().Add(time.Hour).Unix()})
-	jws, err := signer.Sign(payload)
-	if err != nil {
-		panic(err)
-	}
-	s, _ := jws.CompactSerialize()
-	return s
 }
 
 // requestObjectProbe: 0 honoured (the stored request carries the object's state), 1 request_not_supported, 2 anything else, 3 panic.
-func (f *fixture) requestObjectProbe(r opfix.Router, q request, audience string) int {
-	aq := url.Values{"client_id": {"web"}, "redirect_uri": {"https://web.example.com/cb"}, "response_type": {"code"}, "scope": {"openid"},
-		"state": {"outer"}, "request": {requestObject(audience)}}
+func (f *fixture) requestObjectProbe(r opfix.Router, q request, k clientKind, audience string) int {
+	aq := url.Values{"client_id": {k.id}, "redirect_uri": {k.redirect}, "response_type": {"code"}, "scope": {"openid"},
+		"state": {"outer"}, "request": {requestObject(k.id, audience)}}
 	ar := f.do(r, q, http.MethodGet, f.probePath(r, iAuth), aq, nil)
 	if ar.Panic != "" {
 		return 3
